@@ -22,11 +22,12 @@ ObjSorts == {"Evt", "Jet", "Trk"}
 SeqOf(x) == "Seq" \o x
 (* packaging sorts: Pair = (Int, Int); Rec = {k1: Int, k2: Int}; Nest = (Pair, Int);  *)
 (* RecP = {k1: Pair, k2: Int}; PS = (SeqJet, Int)                                     *)
-PackSorts == {"Pair", "Rec", "Nest", "RecP", "PS", "PSP", "RecS"}   \* PSP = (SeqPair, Int); RecS = {k1: PS, k2: Pair}
+PackSorts == {"Pair", "Rec", "Nest", "RecP", "PS", "PSP", "RecS", "RecI"}   \* RecI = {0: Int, 1: Int}   \* PSP = (SeqPair, Int); RecS = {k1: PS, k2: Pair}
 ElemSorts == IF Fam = "mdp" THEN {"Evt", "Jet", "Int", "PS", "RecS"}      \* MetaData wrappers inside packaged values
              ELSE IF Fam = "chainp" THEN {"Evt", "Jet", "Int", "Pair", "PSP", "SeqInt"}   \* nested packaging and
                                                         \* nested result sequences, few sorts, deep
-             ELSE ObjSorts \cup {"Int"} \cup (IF Fam \in {"chain", "chain1", "chainx"} THEN PackSorts \ {"RecS"} ELSE {})
+             ELSE ObjSorts \cup {"Int"} \cup (IF Fam \in {"chain1", "chainx"} THEN PackSorts \ {"RecS"}
+              ELSE IF Fam = "chain" THEN PackSorts \ {"RecS", "RecI"} ELSE {})
 SeqSorts == {SeqOf(x) : x \in ElemSorts}
 Elem(sq) == CHOOSE x \in ElemSorts : SeqOf(x) = sq
 IsSeqSort(s) == s \in SeqSorts
@@ -40,12 +41,14 @@ Fields == { <<"Evt", "met", "Int">>, <<"Evt", "n", "Int">>, <<"Evt", "jets", "Se
 (* production families                                                *)
 Binders == CASE Fam \in {"fuse1", "chain1", "md1", "chainx", "chainp", "mdp"} -> {"x"}
              [] Fam = "helper" -> {"a", "t"}
+             [] Fam = "corea" -> {"arg_0", "arg_1", "arg_e"}     \* names the simplifier itself generates / names that look alike
              [] OTHER -> {"x", "y"}
 
 Enabled(prod) ==
     CASE Fam = "core"  -> prod \in {"Select", "Where", "SelectMany", "First", "Count", "Beta",
                                     "Add", "Cmp", "TupProj", "True"}
       [] Fam = "fuse"  -> prod \in {"Select", "Where", "SelectMany", "First", "Count", "Cmp", "Add"}
+      [] Fam = "corea" -> prod \in {"Select", "Where", "SelectMany", "First", "Count", "Cmp", "Add", "Beta"}
       [] Fam = "fuse1" -> prod \in {"Select", "Where", "SelectMany", "First", "Count", "Cmp", "Add",
                                     "Beta", "TupProj", "DictProj", "If", "MethArgs", "True"}
       [] Fam = "pack"  -> prod \in {"Select", "Where", "SelectMany", "Cmp", "TupProj", "ListProj",
@@ -65,7 +68,7 @@ Enabled(prod) ==
       [] Fam = "chain1" -> prod \in {"Select", "Where", "SelectMany", "Cmp", "Add", "Pack", "Count", "FuncKw"}
       [] Fam \in {"chain", "chainx"} ->
                           prod \in {"Select", "Where", "SelectMany", "Cmp", "Add", "Pack", "Count"}
-      [] Fam = "mdp"   -> prod \in {"Select", "MD", "Pack"}
+      [] Fam = "mdp"   -> prod \in {"Select", "MD", "Pack", "MDDef"}
       [] Fam = "meth"  -> prod \in {"Select", "Where", "SelectMany", "First", "Count", "Cmp", "Add", "Sum",
                                     "MethArgs", "OtherMeth", "KwOp"}
       [] Fam = "agg2"  -> prod \in {"Select", "Where", "Count", "Len", "Sum", "Max", "Min", "Add", "Cmp",
@@ -75,9 +78,10 @@ Enabled(prod) ==
       [] Fam = "comp"  -> prod \in {"Comp", "Select", "Count", "Sum", "Cmp", "Add", "First", "True"}
       [] Fam = "helper" -> prod \in {"Select", "Where", "SelectMany", "Helper", "Add", "Cmp", "Count", "First"}
       [] Fam = "e2e"   -> prod \in {"Select", "Where", "SelectMany", "First", "Count", "Add", "Mul", "Cmp", "If",
-                                    "TupProj", "MethArgs", "MethKw", "Sum", "And", "BetaDef", "HelperE2E"}
+                                    "TupProj", "MethArgs", "MethKw", "Sum", "And", "BetaDef", "HelperE2E", "Thunk"}
+      [] Fam = "e2et"  -> prod \in {"Select", "Where", "Add", "Cmp", "Thunk"}    \* thunks before bare parameter uses
       [] Fam = "all"   -> prod \notin {"OtherMeth", "KwOp", "AggOdd", "MD", "OutIdx", "AbsentKey", "Comp", "Helper", "HelperE2E",
-                                       "AggExpl", "FuncKw", "UnIdx"}
+                                       "AggExpl", "FuncKw", "UnIdx", "Thunk"}
       [] OTHER -> FALSE
 
 (* ------------------------------------------------------------------ *)
@@ -87,7 +91,7 @@ VarsOf(s, ns, ss) == {Name(ns[i]) : i \in {j \in 1..Len(ns) : ss[j].s = s /\ Vis
 (* v.f for every visible object variable v with a field f of sort s *)
 (* a field reference: attribute v.f, or (typed families) the method call v.f() -- Jet.eta has a   *)
 (* required parameter, so it is always written with an argument there                              *)
-MethodLeaves == Fam \in {"e2e"}
+MethodLeaves == Fam \in {"e2e", "e2et"}
 FieldRef(v, cls, f) == IF ~MethodLeaves THEN Attr(v, f)
                        ELSE IF cls = "Jet" /\ f = "eta" THEN Meth(v, f, <<IntC(1)>>) ELSE Meth(v, f, <<>>)
 FieldRefs(s, ns, ss) ==
@@ -99,6 +103,7 @@ ProjRefs(s, ns, ss) ==
     UNION {LET v == Name(ns[i])  vs == ss[i].s IN
            CASE vs = "Pair" /\ s = "Int" -> {Sub(v, IntC(0)), Sub(v, IntC(1))}
              [] vs = "Rec" /\ s = "Int"  -> {Sub(v, StrC("k1")), Attr(v, "k2")}
+             [] vs = "RecI" /\ s = "Int" -> {Sub(v, IntC(0)), Sub(v, IntC(1))}
              [] vs = "Nest" /\ s = "Int" -> {Sub(Sub(v, IntC(0)), IntC(1)), Sub(v, IntC(1))}
              [] vs = "RecP" /\ s = "Int" -> {Sub(Attr(v, "k1"), IntC(0)), Sub(v, StrC("k2"))}
              [] vs = "PS" /\ s = "Int"   -> {Sub(v, IntC(1))}
@@ -124,7 +129,7 @@ Leaves(s, ns, ss) ==
       \cup ProjRefs(s, ns, ss) \cup BadProjRefs(s, ns, ss)
       \cup (IF s = "SeqEvt" THEN {Name("ds")} ELSE {})
       \cup (IF s = "Int" THEN {IntC(1)} ELSE {})
-      \cup (IF s = "Int" /\ Fam = "e2e" THEN {Name("CUT")} ELSE {})        \* a captured module-level constant
+      \cup (IF s = "Int" /\ Fam \in {"e2e", "e2et"} THEN {Name("CUT")} ELSE {})        \* a captured module-level constant
       \cup (IF s = "Bool" /\ Enabled("True") THEN {BoolC(TRUE)} ELSE {})
       \cup (IF s = "Bool" /\ (Fam = "comp" \/ Rand)      \* (random walks must never dead-end on a Boolean hole)
             THEN {Cmp(">", f, IntC(1)) : f \in VarsOf("Int", ns, ss) \cup FieldRefs("Int", ns, ss)} ELSE {})
@@ -135,8 +140,8 @@ Split3(r) == {<<q[1], q[2], r - q[1] - q[2]>> : q \in {w \in (0..r) \X (0..r) : 
 Push(ns, x) == Append(ns, x)
 
 (* function form Op(src, args) and, in the method-form families, src.Op(args) *)
-MethForm == Fam \in {"meth", "e2e"}
-FnForm == Fam # "e2e"          \* the end-to-end family writes operators the way users do: seq.Op(...)
+MethForm == Fam \in {"meth", "e2e", "e2et"}
+FnForm == Fam \notin {"e2e", "e2et"}          \* the end-to-end family writes operators the way users do: seq.Op(...)
 Forms(op, src, rest) == (IF FnForm THEN {Fn(op, <<src>> \o rest)} ELSE {})
                           \cup (IF MethForm THEN {Meth(src, op, rest)} ELSE {})
 
@@ -177,6 +182,9 @@ NonLeaf(h) ==
       (IF s = "Rec" /\ Enabled("Pack") THEN
           {Dct(<<StrC("k1"), Hole("Int", sp[1], ns, ss), StrC("k2"), Hole("Int", sp[2], ns, ss)>>) :
               sp \in Split2(r)}
+       ELSE {}) \cup
+      (IF s = "RecI" /\ Enabled("Pack") THEN
+          {Dct(<<IntC(0), Hole("Int", sp[1], ns, ss), IntC(1), Hole("Int", sp[2], ns, ss)>>) : sp \in Split2(r)}
        ELSE {}) \cup
       (IF s = "Nest" /\ Enabled("Pack") THEN
           {Tup(<<Hole("Pair", sp[1], ns, ss), Hole("Int", sp[2], ns, ss)>>) : sp \in Split2(r)}
@@ -224,6 +232,8 @@ NonLeaf(h) ==
                            <<BinOp("+", BinOp("*", Name("x"), IntC(10)), Name("y")), Hole("Int", 0, ns, ss)>>),
                          <<Hole("Int", r, ns, ss)>>)}
        ELSE {}) \cup
+      (* a parameter-less called lambda *)
+      (IF s = "Int" /\ Enabled("Thunk") THEN {CallP(Lam(<<>>, Hole("Int", r, ns, ss)), <<>>)} ELSE {}) \cup
       (IF s = "Int" /\ Enabled("Beta2") THEN
           {CallP(Lam(<<x, z>>, Hole("Int", sp[3], ns \o <<x, z>>, ss \o <<SortT("Int"), SortT("Jet")>>)),
                  <<Hole("Int", sp[1], ns, ss), Hole("Jet", sp[2], ns, ss)>>) :
@@ -270,6 +280,14 @@ NonLeaf(h) ==
                              Lam(<<"acc", "v">>, BinOp("+", Name("acc"),
                                  Hole("Int", sp[2], ns \o <<"acc", "v">>, ss \o <<SortT("Int"), SortT("Jet")>>)))>>) :
               sp \in Split2(r)}
+       ELSE {}) \cup
+      (* a MetaData wrapper inside the DEFAULT VALUE of a lambda parameter (evaluated in the enclosing scope) *)
+      (IF s \in SeqSorts /\ Enabled("MDDef") THEN
+          UNION {{Fn("Select", <<Hole(SeqOf(y), sp[1], ns, ss),
+                                 T("lam", "", 1, <<x, "cut">>,
+                                   <<Hole(Elem(s), sp[2], ns \o <<x, "cut">>, ss \o <<SortT(y), SortT("SeqEvt")>>),
+                                     Fn("MetaData", <<Hole("SeqEvt", sp[3], ns, ss), d>>)>>)>>) :
+                     sp \in Split3(r), x \in Binders, d \in {Dct(<<>>), Dct(<<StrC("m"), IntC(1)>>)}} : y \in {"Evt", "Jet"}}
        ELSE {}) \cup
       (IF s = "Int" /\ Enabled("Max") THEN {Fn("Max", <<Hole("SeqInt", r, ns, ss)>>)} ELSE {}) \cup
       (IF s = "Int" /\ Enabled("Min") THEN {Fn("Min", <<Hole("SeqInt", r, ns, ss)>>)} ELSE {}) \cup
@@ -352,7 +370,7 @@ NonLeaf(h) ==
        ELSE {}) \cup
       (* ---- calls of captured one-line helpers (C05; table in Sem.HelperLam) ---- *)
       (IF s = "Int" /\ Enabled("Helper") THEN
-          {Fn(hn, <<Hole("Int", r, ns, ss)>>) : hn \in {"h_id", "h_inc", "h_lam", "h_sub", "h_la", "h_lb"}} \cup
+          {Fn(hn, <<Hole("Int", r, ns, ss)>>) : hn \in {"h_id", "h_inc", "h_lam", "h_sub", "h_la", "h_lb", "h_cd", "h_th", "h_re1", "h_re2"}} \cup
           {Fn(hn, <<Hole("Jet", r, ns, ss)>>) : hn \in {"h_nest", "h_two", "h_cap", "h_comp", "h_comp2"}} \cup
           {Fn("h_sub", <<Hole("Int", sp[1], ns, ss), Hole("Int", sp[2], ns, ss)>>) : sp \in Split2(r)} \cup
           {Fn("h_nest2", <<Hole("Jet", sp[1], ns, ss), Hole("Int", sp[2], ns, ss)>>) : sp \in Split2(r)} \cup
@@ -412,11 +430,12 @@ Fill(t) ==
          IN {[t EXCEPT !.a[i] = c] : c \in Fill(t.a[i])}
 
 RootSorts == CASE Fam = "chainp" -> {"SeqInt", "SeqSeqInt"}
-               [] Fam = "mdp" -> {"SeqRecS", "SeqPS"}
+               [] Fam = "mdp" -> {"SeqRecS", "SeqPS", "SeqInt"}
                [] Fam \in {"idx", "chain", "chain1", "chainx"} -> {"SeqInt"}
                [] Fam \in {"agg"} -> {"SeqInt", "Int"}
                [] Fam = "helper" -> {"SeqInt", "SeqJet"}
                [] Fam = "e2e" -> {"SeqInt", "SeqJet", "SeqEvt"}
+               [] Fam = "e2et" -> {"SeqInt"}
                [] Fam \in {"meth", "md", "md1"} -> {"SeqInt", "SeqJet", "SeqEvt", "SeqTrk", "Int"}
                [] OTHER -> {"SeqInt", "SeqJet", "Int"}
 Roots == {Hole(s, Budget, <<>>, <<>>) : s \in RootSorts}
